@@ -11,6 +11,11 @@ TB = ("Lean 4.33.0 kernel + Mathlib v4.33.0; axioms propext/Classical.choice/Quo
       "correspondence (differential, bounded by its generators) and, where stated, by a translator from the Python "
       "AST; Python/JAX/XLA/IEEE-754 runtime modelled, not verified.")
 
+COMMON_NOTE = (" The theorem layer covers the single-determinant kinds (rhf, uhf, each NOCI determinant) at the first-quantised level "
+               "(Slater coefficients = minors, one-body operators = column derivations; DESIGN §10 fallback); multi-determinant / CI kinds are "
+               "validated against an explicit Fock-space state (harness/trials.py + fock.py), not proved. Walkers with vanishing reference "
+               "overlap (outside the CI formulas' domain) and exact pivot ties (JAX det defect) are avoided and counted.")
+
 CLAIMED = {
     "C20": dict(
         category="proof",
@@ -103,6 +108,40 @@ CLAIMED = {
         design_ref="DESIGN.md §5/C09",
         technique="Lean 4 proof (case analysis on IEEE-like values, induction over histories) + value-class correspondence + monitored histories",
         note=TB + " exp/log/cos/angle and rounding are outside the model (raw factor taken as data); CPMC two-body internals are covered by the monitored histories only.",
+    ),
+    "C01": dict(
+        category="proof",
+        text=("Lean theorems for every dimension: Cauchy-Binet (proved here; not in Mathlib) gives det(C^H W) = sum over occupation strings of "
+              "conj(minor C) minor W, i.e. the rhf/uhf overlap is the many-body inner product for every complex non-orthonormal walker and trial; "
+              "restricted = unrestricted on equal blocks; linear combinations (NOCI); batched = per-walker map for every batch split; C C^H of an "
+              "orthonormal determinant is <a+_q a_p>. Tied to the code by rhf/uhf overlaps vs the same Lean definitions executed at Q(i), and for all "
+              "12 trial classes (both entry points, batched order, density matrices) against the explicit second-quantised state."),
+        design_ref="DESIGN.md §5/C01",
+        technique="Lean 4 proof (Cauchy-Binet over increasing strings) + exact Q(i) correspondence + Fock-space spec comparison",
+        note=TB + COMMON_NOTE,
+    ),
+    "C02": dict(
+        category="proof",
+        text=("Lean theorems for every dimension: with the column calculus D1 (sum of single column replacements = tr(adj M N)) and D2 (ordered pairs "
+              "of distinct columns = det M (tr tr - tr of product), proved via det(1 + U V) = det(1 + V U)), the Green's-function energy formula of "
+              "uhf equals the mixed estimator written with explicit column replacements, including spin-dependent h1; rhf with restricted walkers "
+              "equals the unrestricted formula on [W, W] and sees exactly the spin average of h1. Tied to the code by rhf/uhf energies vs the Lean "
+              "model at Q(i) and by all 12 classes / entry points vs the Fock-space estimator (spin-dependent h1 where the property lists it), plus "
+              "the eps^2 convergence of the finite-difference kinds."),
+        design_ref="DESIGN.md §5/C02",
+        technique="Lean 4 proof (determinant column calculus D1/D2) + exact Q(i) correspondence + Fock-space spec comparison",
+        note=TB + COMMON_NOTE + " Hand-coded cisd/ucisd use single-precision intermediates (tolerance 5e-4); hand-coded ucisd with spin-dependent h1 is outside the property's quantifier.",
+    ),
+    "C03": dict(
+        category="proof",
+        text=("Lean theorems for every dimension: each uhf force-bias component is the mixed expectation of the spin-summed one-body operator L_g for "
+              "the product bra (D1 + trace cyclicity), rhf restricted = unrestricted on [W, W], and the one-body numerator over the overlap is "
+              "tr((C^H W)^-1 C^H O W), the first-order coefficient along 1 + xO. Tied to the code by every component vs the Lean model at Q(i), by all "
+              "12 classes / entry points vs the Fock-space expectation, and by forward-mode and finite-difference logarithmic derivatives of the "
+              "library's own overlap along expm(x L_g)."),
+        design_ref="DESIGN.md §5/C03",
+        technique="Lean 4 proof (D1, trace cyclicity) + exact Q(i) correspondence + Fock-space spec comparison",
+        note=TB + COMMON_NOTE + " jax.vjp/jvp are trusted to differentiate the traced function (cross-checked, not proved).",
     ),
 }
 
